@@ -4,6 +4,9 @@
 -/
 import XonshVerif.Proofs.PegTotal
 import XonshVerif.Properties.C15
+import XonshVerif.Properties.C03
+import XonshVerif.Model.DriverMisc
+import XonshCerts.Regex
 import XonshVerif.Generated.ParserIR
 import XonshVerif.Generated.WfWitness
 namespace XVC
@@ -20,6 +23,13 @@ theorem wf_cert : wfCert XV.Gen.prog shippedWf = true := by decide +kernel
 theorem shipped_parser_total (w : Array RTok) (start : Nat) (verbose : Bool) :
     ∃ fuel, (parse XV.Gen.prog w fuel start verbose).1 ≠ .outOfFuel :=
   parse_total wf_cert w start verbose
+
+/-- **C03, the whole pipeline on the regenerated data**: for every text, every classification of non-ASCII characters and
+    either start rule, the model of `parse_string` - the regexes regenerated from tokenize.py, the hand-written tokenizer and
+    token-source models, the IR regenerated from parser.py - reaches a verdict; it never hangs. -/
+theorem shipped_parse_string_total (E : XV.Rx.Env) (start : Nat) (src : List Nat) :
+    ∃ fuel, (XV.Pipe.parseString E XV.Driver.genPats (XV.Driver.genTables start) fuel src).terminated :=
+  XV.Pipe.parse_string_total E _ gen_pseudo_progress (XV.Driver.genTables start) shippedWf wf_cert src
 
 /-- the shipped grammar has no rule that can succeed on the empty token string -/
 theorem no_nullable_rule : XV.Gen.wfNullMask = 0 := by decide +kernel
